@@ -6,7 +6,8 @@
 mod out;
 mod rng;
 
-mod c05;
+mod registry;
+pub use registry::*;
 
 use std::path::PathBuf;
 
@@ -65,12 +66,9 @@ fn main() {
     }
     // panics are outcomes, not noise
     std::panic::set_hook(Box::new(|_| {}));
-    match prop.as_str() {
-        "c05" => c05::run(&cfg),
-        x => {
-            eprintln!("unknown property {}", x);
-            std::process::exit(2);
-        }
+    if !registry::run(prop.as_str(), &cfg) {
+        eprintln!("unknown property {}", prop);
+        std::process::exit(2);
     }
 }
 
